@@ -1873,6 +1873,15 @@ class TermAnalysis(Analysis):
                 args.append(v)
         args = tuple(args)
         kwargs = tuple((k.arg or "**", self.ev(k.value, st)) for k in e.keywords)
+        if any(k == "**" for k, _v in kwargs):
+            # f(**kw) where kw is known to be a literal mapping with string keys (the surplus keywords a forwarding helper received)
+            flat = []
+            for k, v in kwargs:
+                if k == "**" and isinstance(v, tuple) and v and v[0] == "dict" and all(is_const(kk) and isinstance(kk[1], str) for kk, _vv in v[1]):
+                    flat += [(kk[1], vv) for kk, vv in v[1]]
+                else:
+                    flat.append((k, v))
+            kwargs = tuple(flat)
         f = e.func
         # super().m(...)
         if isinstance(f, ast.Attribute) and isinstance(f.value, ast.Call) and isinstance(f.value.func, ast.Name) \
@@ -2300,6 +2309,13 @@ def bind_args(fn: FuncInfo, args: Tuple[Term, ...], kwargs=()) -> Dict[str, Term
         out[n] = v
     if a.vararg is not None and len(args) >= len(names) and not any(isinstance(v, tuple) and v and v[0] == "starred" for v in args):
         out[a.vararg.arg] = ("tuple", tuple(args[len(names):]))          # def f(*xs): f(a, b) binds xs = (a, b)
+    named = set(names) | {x.arg for x in a.kwonlyargs}
+    surplus = []
     for k, v in kwargs:
-        out[k] = v
+        if a.kwarg is not None and k != "**" and k not in named:
+            surplus.append((("const", k), v))
+        else:
+            out[k] = v
+    if a.kwarg is not None and not any(k == "**" for k, _v in kwargs):
+        out[a.kwarg.arg] = ("dict", tuple(surplus))          # def f(**kw): f(x=1) binds kw = {"x": 1}
     return out
